@@ -29,6 +29,10 @@ Wrap(x, L) ==
    \cup { [k |-> "map", args |-> << <<x, l>> >>] : l \in L }
    \cup { [k |-> "map", args |-> << <<l, x>> >>] : l \in L }
    \cup { [k |-> "map", args |-> <<>>] }
+   \* several entries / elements / arguments: their order is part of the tree
+   \cup { [k |-> "map", args |-> << <<x, l>>, <<l, l>> >>] : l \in L } \cup { [k |-> "map", args |-> << <<l, l>>, <<l, x>>, <<x, x>> >>] : l \in L }
+   \cup { [k |-> "list", args |-> <<l, x, l>>] : l \in L } \cup { [k |-> "call", f |-> "g", args |-> <<l, x, x>>] : l \in L }
+   \cup { [k |-> "obj", x |-> [k |-> "id", n |-> "M"], args |-> << <<"f", l>>, <<"g", x>>, <<"h", l>> >>] : l \in L }
    \cup { [k |-> "obj", x |-> [k |-> "id", n |-> "M"], args |-> << <<"f", x>> >>], [k |-> "obj", x |-> [k |-> "id", n |-> "M"], args |-> << <<"f", x>>, <<"g", x>> >>],
           [k |-> "obj", x |-> [k |-> "sel", x |-> [k |-> "id", n |-> "p"], f |-> "M"], args |-> <<>>] }
 D1 == Wrap([k |-> "id", n |-> "a"], {[k |-> "id", n |-> "b"]})
